@@ -1,4 +1,4 @@
-import MorfuseModel.EventQueue.Lemmas
+import MorfuseModel.EventQueue.Original
 /-!
 # C08 — posted events: delivered once, not early, in due-time order, unless cancelled
 
@@ -9,11 +9,22 @@ state reachable from `init b` by any finite sequence of host operations, for any
 handler tables (re-entrant post / cancel / destroy / clock movement inside a response), any number
 of listeners and events.
 
+The operations are: post / the three cancels / destroy / clock / `PostponeEvent` / `PostponeAllEvents` (each at
+top level or inside a response), `ProcessEvents`, the per-listener pass `Listener::ProcessPendingEvents`,
+`ClearEventList`, and an `Archive` save + load of the queue.  `step / run / Reachable` are the model in the
+*repaired* configuration (`Cfg.repaired`: `Postpone…` re-links by `Add / AddFirst / Insert`, the loading branch
+of `Archive` stores the event); `stepC / runC / ReachableC Cfg.original` the code as it was found
+(`notes/C08-findings.md` F1, F2), about which the last section proves that the property fails.  Which of the two the
+source text is, is read by the translator on every run (`Gen/EventQueueCfg.lean`).
+
 Vocabulary: `pending s` is the queue as a walk over the `next` links; `delivered s` the events whose
 response has been called, oldest first; `s.h.log` the delivery records (newest first) with the pass
 time `passT` read once by `ProcessPendingEvents`, the clock at the call and, as a ghost, what was
 still queued right after the node was unlinked (`rest`); `s.h.posted / cancelled` ghost ledgers;
-`lt a b` the queue order (due time, then posting sequence number).
+`lt a b` the queue order (due time, then enqueue stamp `ord`: the posting order, renewed by a postponement;
+`C08_stamp_is_posting_order`: without postponements `ord = id`).  A postponement supersedes the version of the
+event that was queued (`s.h.postponed`) by a new version with the same `id, lis, typ, flags` (`s.h.posted` lists
+every version).
 -/
 namespace Morfuse.EventQueue
 open Machine
@@ -32,6 +43,12 @@ theorem C08_links_wellformed {s : State} (h : Reachable s) : Repr s.q ((pending 
   show Repr s.q ((LQ.toList s.q).map (·.id))
   rw [hrel.1.toList]; exact hrel.1.1
 
+/-- **No undefined behaviour** is reached by the repaired code: the null cursor of `Postpone…` and the unset
+    `node->event` of the loading branch of `Archive` are gone. -/
+theorem C08_no_ub {s : State} (h : Reachable s) : s.h.ub = false := by
+  obtain ⟨ss, hr, hrel⟩ := reachable_spec h
+  rw [hrel.2]; exact hr.inv.noub
+
 /-- A pending event always belongs to a live listener (so `ProcessPendingEvents` never calls a
     response on a destroyed object) and is of a type the listener's class responds to. -/
 theorem C08_pending_listener_alive {s : State} (h : Reachable s) :
@@ -42,10 +59,11 @@ theorem C08_pending_listener_alive {s : State} (h : Reachable s) :
   rw [hrel.2]
   exact ⟨hr.inv.qalive e he', hr.inv.qresp e he'⟩
 
-/-- **Order.** Each delivery takes the least element (due time, then posting order) of what is
-    pending at that moment — including what responses running earlier in the same pass posted. -/
+/-- **Order.** Each delivery of a global pass takes the least element (due time, then enqueue order) of
+    what is pending at that moment — including what responses running earlier in the same pass posted
+    or postponed; each delivery of a per-listener pass the least among that listener's pending events. -/
 theorem C08_deliver_is_min {s : State} (h : Reachable s) :
-    ∀ d ∈ s.h.log, ∀ e ∈ d.rest, lt d.ev e := by
+    ∀ d ∈ s.h.log, ∀ e ∈ d.rest, (d.glob = true ∨ e.lis = d.ev.lis) → lt d.ev e := by
   obtain ⟨ss, hr, hrel⟩ := reachable_spec h
   rw [hrel.2]; exact hr.inv.min
 
@@ -62,7 +80,7 @@ theorem C08_not_early {s : State} (h : Reachable s) :
     that is not cancelled is delivered in the first pass whose time is `≥` its due time. -/
 theorem C08_not_late {s s' : State} (h : Reachable s) (hs : step s .process = some s') :
     (∀ e ∈ pending s', (s.h.now : Int) < e.due) ∧
-    ∃ new, s'.h.log = new ++ s.h.log ∧ ∀ d ∈ new, d.passT = (s.h.now : Int) := by
+    ∃ new, s'.h.log = new ++ s.h.log ∧ ∀ d ∈ new, d.passT = (s.h.now : Int) ∧ d.glob = true := by
   obtain ⟨ss, ss', hinv, hrel, hstep, hrel', _⟩ := step_transfer h hs
   constructor
   · simp only [Machine.step] at hstep
@@ -75,81 +93,91 @@ theorem C08_not_late {s s' : State} (h : Reachable s) (hs : step s .process = so
     cases hs
     exact processLoop_log LQ.impl _ _ s
 
-/-- **Exactly once.** Everything that was put in the queue is, at any time, in exactly one of:
-    delivered, cancelled, still pending; sequence numbers are unique, so no event is delivered
-    twice, and none is both cancelled and delivered. -/
+/-- **Exactly once.** Every version of every event that was put in the queue is, at any time, in exactly one
+    of: superseded by a postponement, delivered, cancelled, still pending; stamps are unique.  No event (by
+    sequence number) occurs twice among delivered / cancelled / pending — so none is delivered twice and none
+    is both cancelled and delivered — and every event that was ever posted occurs there: none is lost. -/
 theorem C08_exactly_once {s : State} (h : Reachable s) :
-    (delivered s ++ s.h.cancelled ++ pending s).Perm s.h.posted ∧
-    (s.h.posted.map (·.id)).Nodup ∧
-    (delivered s ++ s.h.cancelled ++ pending s).Nodup := by
+    (s.h.postponed ++ (delivered s ++ s.h.cancelled ++ pending s)).Perm s.h.posted ∧
+    (s.h.posted.map (·.ord)).Nodup ∧
+    ((delivered s ++ s.h.cancelled ++ pending s).map (·.id)).Nodup ∧
+    (∀ e ∈ s.h.posted, e.id ∈ (delivered s ++ s.h.cancelled ++ pending s).map (·.id)) ∧
+    (s.h.postponed ++ (delivered s ++ s.h.cancelled ++ pending s)).Nodup := by
   obtain ⟨ss, hr, hrel⟩ := reachable_spec h
   have hinv := hr.inv
-  have hperm : (delivered s ++ s.h.cancelled ++ pending s).Perm s.h.posted := by
-    show ((s.h.log.map (·.ev)).reverse ++ s.h.cancelled ++ LQ.toList s.q).Perm s.h.posted
+  have hrev : (delivered s ++ s.h.cancelled ++ pending s).Perm (live ss) := by
+    show ((s.h.log.map (·.ev)).reverse ++ s.h.cancelled ++ LQ.toList s.q).Perm _
     rw [hrel.1.toList, hrel.2]
-    refine List.Perm.trans ?_ hinv.ledger
     exact List.Perm.append_right _ (List.Perm.append_right _ (List.reverse_perm _))
-  have hnd : (s.h.posted.map (·.id)).Nodup := by
+  have hperm : (s.h.postponed ++ (delivered s ++ s.h.cancelled ++ pending s)).Perm s.h.posted := by
+    have hl : (s.h.postponed ++ live ss).Perm s.h.posted := by rw [hrel.2]; exact hinv.ledger
+    exact (List.Perm.append_left _ hrev).trans hl
+  have hnd : (s.h.posted.map (·.ord)).Nodup := by
     rw [hrel.2]
     have := hinv.postedSorted
     rw [List.Nodup, List.pairwise_map]
     exact this.imp (fun {a b} hab => by omega)
-  refine ⟨hperm, hnd, ?_⟩
-  have : ((delivered s ++ s.h.cancelled ++ pending s).map (·.id)).Nodup :=
-    (hperm.map (·.id)).nodup_iff.2 hnd
-  exact List.Pairwise.of_map (·.id) (fun a b hab e => hab (by rw [e])) this
+  refine ⟨hperm, hnd, (hrev.map (·.id)).nodup_iff.2 hinv.liveIds, ?_, ?_⟩
+  · intro e he
+    rw [hrel.2] at he
+    exact (hrev.map (·.id)).mem_iff.2 (hinv.cover e he)
+  · have := (hperm.map (·.ord)).nodup_iff.2 hnd
+    exact List.Pairwise.of_map (·.ord) (fun a b hab e => hab (by rw [e])) this
 
 /-- **First pass.** An event that is pending and due when a pass starts is, when the pass returns,
-    either delivered by that very pass (its record carries this pass's time) or was cancelled by a
-    response that ran earlier in the pass; by `C08_not_early` no earlier pass delivered it. -/
+    either delivered by that very pass (its record carries this pass's time), or was cancelled, or was
+    postponed (superseded by a version with a later due time) by a response that ran earlier in the pass;
+    by `C08_not_early` no earlier pass delivered it. -/
 theorem C08_first_pass {s s' : State} {e : Ev} (h : Reachable s) (hs : step s .process = some s')
     (he : e ∈ pending s) (hdue : e.due ≤ (s.h.now : Int)) :
-    (∃ d ∈ s'.h.log, d.ev = e ∧ d.passT = (s.h.now : Int)) ∨ e ∈ s'.h.cancelled := by
-  have h' : Reachable s' := reachable_step (ops := [.process]) h (by simp only [run, Machine.run]; unfold step at hs; rw [hs]; rfl)
+    (∃ d ∈ s'.h.log, d.ev = e ∧ d.passT = (s.h.now : Int) ∧ d.glob = true) ∨ e ∈ s'.h.cancelled ∨
+      e ∈ s'.h.postponed := by
+  have hub := C08_no_ub h
+  have h' : Reachable s' := reachable_step (ops := [.process]) h (by
+    simp only [run, Machine.run, hub]; unfold step at hs; rw [hs]; rfl)
   obtain ⟨hlate, new, hlog, hnew⟩ := C08_not_late h hs
-  have l1 := C08_exactly_once h
-  have l2 := C08_exactly_once h'
-  have hposted : e ∈ s'.h.posted := by
-    have : e ∈ s.h.posted := l1.1.mem_iff.1 (List.mem_append_right _ he)
-    exact (grows_step LQ.impl hs).2 e this
-  have hmem := l2.1.mem_iff.2 hposted
-  simp only [List.mem_append] at hmem
-  rcases hmem with (hd | hc) | hp
-  · left
-    -- delivered in `s'` but pending, hence not delivered, in `s`: the record is one of the new ones
-    have hnd : e ∉ delivered s := by
-      have := l1.2.2
-      rw [List.nodup_append] at this
-      intro hd0
-      exact this.2.2 e (List.mem_append_left _ hd0) e he rfl
-    simp only [delivered, List.mem_reverse, List.mem_map] at hd hnd
-    obtain ⟨d, hdl, hde⟩ := hd
-    rw [hlog] at hdl
-    rcases List.mem_append.1 hdl with h1 | h1
-    · exact ⟨d, by rw [hlog]; exact List.mem_append_left _ h1, hde, hnew d h1⟩
-    · exact absurd ⟨d, h1, hde⟩ hnd
+  have hnp : e ∉ pending s' := fun hp => by have := hlate e hp; omega
+  rcases gone_transfer h h' (grows_step LQ.impl hs) hlog he hnp with ⟨d, hd, hde⟩ | hc
+  · exact Or.inl ⟨d, by rw [hlog]; exact List.mem_append_left _ hd, hde, hnew d hd⟩
   · exact Or.inr hc
-  · have := hlate e hp; omega
 
-/-- **Cancelled means never delivered.** Once an event is in the cancelled ledger it stays there,
-    and in no later state is it delivered or pending again. -/
+/-- **Cancelled means never delivered.** Once an event is in the cancelled ledger it stays there, and in no
+    later state is it — or any other version with its sequence number — delivered or pending. -/
 theorem C08_cancelled_never_delivered {s s' : State} {ops : List Op} {e : Ev} (h : Reachable s)
-    (he : e ∈ s.h.cancelled) (hr : run s ops = some s') : e ∉ delivered s' ∧ e ∉ pending s' := by
+    (he : e ∈ s.h.cancelled) (hr : run s ops = some s') :
+    e ∈ s'.h.cancelled ∧ ∀ x ∈ delivered s' ++ pending s', x.id ≠ e.id := by
   have he' : e ∈ s'.h.cancelled := (grows_run LQ.impl ops hr).1 e he
-  have hnd := (C08_exactly_once (reachable_step h hr)).2.2
+  have hnd := (C08_exactly_once (reachable_step h hr)).2.2.1
+  refine ⟨he', fun x hx heq => ?_⟩
+  simp only [List.map_append, List.append_assoc] at hnd
+  rcases List.mem_append.1 hx with hd | hp
+  · rw [List.nodup_append] at hnd
+    exact hnd.2.2 x.id (List.mem_map_of_mem hd) e.id
+      (List.mem_append_left _ (List.mem_map_of_mem he')) heq
+  · rw [List.nodup_append] at hnd
+    have h2 := hnd.2.1
+    rw [List.nodup_append] at h2
+    exact h2.2.2 e.id (List.mem_map_of_mem he') x.id (List.mem_map_of_mem hp) heq.symm
+
+/-- **Superseded means never delivered.** The version of an event that a postponement replaced is never
+    delivered and never pending again: the event cannot be delivered under its old due time. -/
+theorem C08_superseded_never_delivered {s s' : State} {ops : List Op} {e : Ev} (h : Reachable s)
+    (he : e ∈ s.h.postponed) (hr : run s ops = some s') : e ∉ delivered s' ∧ e ∉ s'.h.cancelled ∧ e ∉ pending s' := by
+  have he' : e ∈ s'.h.postponed := (grows_run LQ.impl ops hr).2.2 e he
+  have hnd := (C08_exactly_once (reachable_step h hr)).2.2.2.2
   rw [List.nodup_append] at hnd
-  obtain ⟨h1, _, h3⟩ := hnd
-  rw [List.nodup_append] at h1
-  constructor
-  · intro hd; exact h1.2.2 e hd e he' rfl
-  · intro hp; exact h3 e (List.mem_append_right _ he') e hp rfl
+  have key : e ∉ delivered s' ++ s'.h.cancelled ++ pending s' := fun hm => hnd.2.2 e he' e hm rfl
+  refine ⟨fun hd => key ?_, fun hc => key ?_, fun hp => key ?_⟩
+  · exact List.mem_append_left _ (List.mem_append_left _ hd)
+  · exact List.mem_append_left _ (List.mem_append_right _ hc)
+  · exact List.mem_append_right _ hp
 
 /-- **Posting.** An accepted post (live listener, event type with a response) creates the event
-    `(next sequence number, listener, type, now + delay, flags)` and puts it after every pending
+    `(next sequence number, listener, type, now + delay, flags, next stamp)` and puts it after every pending
     event whose due time is not later and before every pending event whose due time is later. -/
 theorem C08_post_enqueues {s s' : State} {l typ f : Nat} {d : Int} (h : Reachable s)
     (hs : step s (.act (.post l typ d f)) = some s') (hresp : hasResponse typ = true) :
-    let e : Ev := ⟨s.h.nextId, l, typ, (s.h.now : Int) + d, f⟩
+    let e : Ev := ⟨s.h.nextId, l, typ, (s.h.now : Int) + d, f, s.h.nextOrd⟩
     pending s' = (pending s).takeWhile (ListQ.leDue e.due) ++ e :: (pending s).dropWhile (ListQ.leDue e.due) ∧
     s'.h.posted = e :: s.h.posted ∧ s'.h.log = s.h.log ∧ s'.h.cancelled = s.h.cancelled := by
   obtain ⟨ss, ss', hinv, hrel, hstep, hrel', _⟩ := step_transfer h hs
@@ -223,26 +251,215 @@ theorem C08_destroy_cancels {s s' : State} {l : Nat} (h : Reachable s)
     simp [List.mem_filter]
   · cases hs
 
-/-- **Posting order among equal due times.** Of two delivered events with the same due time the one
-    posted first was delivered first (no assumption on delays). -/
+/-- **Enqueue order among equal due times.** Of two delivered events with the same due time the one
+    enqueued first (posted first, a postponed event counting from its postponement) was delivered first —
+    whenever the earlier delivery was made by a global pass or both belong to one listener (a per-listener
+    pass overtakes other listeners' events by design).  No assumption on delays. -/
 theorem C08_fifo_among_ties {s : State} (h : Reachable s) :
-    (delivered s).Pairwise (fun a b => a.due = b.due → a.id < b.id) := by
+    s.h.log.Pairwise (fun later earlier => (earlier.glob = true ∨ later.ev.lis = earlier.ev.lis) →
+      earlier.ev.due = later.ev.due → earlier.ev.ord < later.ev.ord) := by
   obtain ⟨ss, hr, hrel⟩ := reachable_spec h
-  show ((s.h.log.map (·.ev)).reverse).Pairwise _
-  rw [hrel.2, List.pairwise_reverse, List.pairwise_map]
+  rw [hrel.2]
   exact hr.inv.logfifo
 
 /-- **Non-decreasing due-time order.** When no post (top level or inside a response) uses a negative
-    delay, the whole delivery sequence is strictly increasing in (due time, posting order).
+    delay and no per-listener pass is made, the whole delivery sequence is strictly increasing in (due time,
+    enqueue order) — postponements included.
     With negative delays only `C08_deliver_is_min` holds: a response may post an event that is
     already overdue, which is then delivered after events with a later due time. -/
-theorem C08_nondecreasing {b : Nat} {ops : List Op} {s : State} (hops : ∀ op ∈ ops, Op.sat Act.nonneg op)
+theorem C08_nondecreasing {b : Nat} {ops : List Op} {s : State} (hops : ∀ op ∈ ops, Op.sat Act.nonneg False op)
     (h : run (init b) ops = some s) : (delivered s).Pairwise lt := by
   obtain ⟨ss, hr, _, hh, _⟩ := refines h
   have := InvN.preserved.run ops hops ⟨InvS.init b, InvN.init b⟩ hr
   show ((s.h.log.map (·.ev)).reverse).Pairwise _
   rw [hh, List.pairwise_reverse, List.pairwise_map]
   exact this.2.logsorted
+
+/-- **Stamps.** In a history without postponements (top level or inside a response) the enqueue stamp of
+    every event is its posting sequence number: `lt` is then (due time, posting order), as the property says. -/
+theorem C08_stamp_is_posting_order {b : Nat} {ops : List Op} {s : State}
+    (hops : ∀ op ∈ ops, Op.sat Act.noPostpone True op) (h : run (init b) ops = some s) :
+    ∀ e ∈ s.h.posted, e.ord = e.id := by
+  obtain ⟨ss, hr, _, hh, _⟩ := refines h
+  have := InvO.preserved.run ops hops (InvO.init b) hr
+  rw [hh]; exact this.ordid
+
+/-- **PostponeEvent.** Nothing changes when the listener has no pending event of that type.  Otherwise the
+    first such event `e` (in queue order) is superseded by the version `e'` with the same sequence number,
+    listener, type and flags, due time `e.due + d` and the next stamp; `e'` is put back by the insertion rule
+    of `PostEvent` (after every pending event whose due time is not later, before the first later one), every
+    other pending event keeps its place, and nothing else changes (no delivery, no cancellation, clock). -/
+theorem C08_postpone_event {s s' : State} {l typ d : Nat} (h : Reachable s)
+    (hs : step s (.act (.postpone l typ d)) = some s') :
+    match (pending s).find? (fun e => e.lis == l && e.typ == typ) with
+    | none => pending s' = pending s ∧ s'.h = s.h
+    | some e =>
+      pending s' = ListQ.insL ((pending s).erase e) { e with due := e.due + (d : Int), ord := s.h.nextOrd } ∧
+      s'.h = { s.h with nextOrd := s.h.nextOrd + 1, postponed := e :: s.h.postponed,
+                        posted := { e with due := e.due + (d : Int), ord := s.h.nextOrd } :: s.h.posted } :=
+  postpone_transfer (p := matchType l typ) h hs (fun _ => rfl) (fun ss hal => by
+    simp only [applyAct, hal, not_true_eq_false, if_false])
+
+/-- **PostponeAllEvents** (despite its name the code, like the engine it was ported from, moves only the
+    listener's first pending event and returns): as `C08_postpone_event`, matching by listener alone. -/
+theorem C08_postpone_all {s s' : State} {l d : Nat} (h : Reachable s)
+    (hs : step s (.act (.postponeAll l d)) = some s') :
+    match (pending s).find? (fun e => e.lis == l) with
+    | none => pending s' = pending s ∧ s'.h = s.h
+    | some e =>
+      pending s' = ListQ.insL ((pending s).erase e) { e with due := e.due + (d : Int), ord := s.h.nextOrd } ∧
+      s'.h = { s.h with nextOrd := s.h.nextOrd + 1, postponed := e :: s.h.postponed,
+                        posted := { e with due := e.due + (d : Int), ord := s.h.nextOrd } :: s.h.posted } :=
+  postpone_transfer (p := matchAll l) h hs (fun _ => rfl) (fun ss hal => by
+    simp only [applyAct, hal, not_true_eq_false, if_false])
+
+/-- **Per-listener pass** `l->ProcessPendingEvents()` at time `t`: terminates, delivers only events of `l`
+    (records carry `t`), leaves no event of `l` pending whose due time is `≤ t`; an event of `l` that was
+    pending and due is delivered by this pass unless a response cancelled or postponed it first; events of other
+    listeners are not delivered (they stay pending unless a response cancelled or postponed them).  The order
+    among `l`'s events is `C08_deliver_is_min`. -/
+theorem C08_listener_pass {s s' : State} {l : Nat} (h : Reachable s) (hs : step s (.processL l) = some s') :
+    (∀ e ∈ pending s', e.lis = l → (s.h.now : Int) < e.due) ∧
+    (∃ new, s'.h.log = new ++ s.h.log ∧ ∀ d ∈ new, d.passT = (s.h.now : Int) ∧ d.glob = false ∧ d.ev.lis = l) ∧
+    (∀ e ∈ pending s, e.lis = l → e.due ≤ (s.h.now : Int) →
+      (∃ d ∈ s'.h.log, d.ev = e ∧ d.passT = (s.h.now : Int) ∧ d.glob = false) ∨ e ∈ s'.h.cancelled ∨ e ∈ s'.h.postponed) ∧
+    (∀ e ∈ pending s, e.lis ≠ l → e ∈ pending s' ∨ e ∈ s'.h.cancelled ∨ e ∈ s'.h.postponed) := by
+  obtain ⟨ss, ss', hinv, hrel, hstep, hrel', _⟩ := step_transfer h hs
+  have hub := C08_no_ub h
+  have h' : Reachable s' := reachable_step (ops := [.processL l]) h (by
+    simp only [run, Machine.run, hub]; unfold step at hs; rw [hs]; rfl)
+  simp only [Machine.step] at hstep
+  split at hstep
+  · cases hstep
+    have hlate : ∀ e ∈ pending s', e.lis = l → (s.h.now : Int) < e.due := by
+      intro e he hl
+      have he' : e ∈ (processL ListQ.impl l ss).q := by rw [← hrel'.1.toList]; exact he
+      rw [hrel.2]
+      exact not_late_specL hinv l e he' hl
+    obtain ⟨new, hlog, hnew⟩ := processLoopL_lis l (ss.h.now : Int) (passFuel ListQ.impl ss) ss
+    have hlog' : s'.h.log = new ++ s.h.log := by rw [hrel'.2, hrel.2]; exact hlog
+    have hnew' : ∀ d ∈ new, d.passT = (s.h.now : Int) ∧ d.glob = false ∧ d.ev.lis = l := by
+      rw [hrel.2]; exact hnew
+    refine ⟨hlate, ⟨new, hlog', hnew'⟩, ?_, ?_⟩
+    · intro e he hl hdue
+      have hnp : e ∉ pending s' := fun hp => by have := hlate e hp hl; omega
+      rcases gone_transfer h h' (grows_step LQ.impl hs) hlog' he hnp with ⟨d, hd, hde⟩ | hc
+      · exact Or.inl ⟨d, by rw [hlog']; exact List.mem_append_left _ hd, hde, (hnew' d hd).1, (hnew' d hd).2.1⟩
+      · exact Or.inr hc
+    · intro e he hl
+      by_cases hp : e ∈ pending s'
+      · exact Or.inl hp
+      · rcases gone_transfer h h' (grows_step LQ.impl hs) hlog' he hp with ⟨d, hd, hde⟩ | hc
+        · exact absurd (by rw [← hde]; exact (hnew' d hd).2.2) hl
+        · exact Or.inr hc
+  · cases hstep
+
+/-- **ClearEventList** removes every pending event (they count as cancelled: none of them is ever delivered,
+    `C08_cancelled_never_delivered`), delivers nothing, and leaves a well-formed empty list. -/
+theorem C08_clear {s s' : State} (h : Reachable s) (hs : step s .clear = some s') :
+    pending s' = [] ∧ s'.h.cancelled = (pending s).reverse ++ s.h.cancelled ∧ s'.h.log = s.h.log ∧
+    s'.h.posted = s.h.posted := by
+  obtain ⟨ss, ss', hinv, hrel, hstep, hrel', _⟩ := step_transfer h hs
+  simp only [Machine.step] at hstep
+  cases hstep
+  simp only [pending]
+  rw [hrel'.1.toList, hrel'.2, hrel.1.toList, hrel.2]
+  have e1 : ss.q.filter (fun _ => !true) = [] := by simp
+  have e2 : ss.q.filter (fun _ => true) = ss.q := by simp
+  refine ⟨?_, ?_, rfl, rfl⟩
+  · show ss.q.filter (fun _ => !true) = []
+    exact e1
+  · show (ss.q.filter (fun _ => true)).reverse ++ ss.h.cancelled = _
+    rw [e2]
+
+/-- **Archive round trip.** Saving the queue and loading it back (same context: the listeners are the same
+    objects) yields the same pending events in the same order, with well-formed links
+    (`C08_links_wellformed` holds for `s'` as for every reachable state) and nothing else changed. -/
+theorem C08_archive_roundtrip {s s' : State} (h : Reachable s) (hs : step s .saveLoad = some s') :
+    pending s' = pending s ∧ s'.h = s.h := by
+  obtain ⟨ss, ss', _, hrel, hstep, hrel', _⟩ := step_transfer h hs
+  simp only [Machine.step] at hstep
+  cases hstep
+  simp only [pending]
+  rw [hrel'.1.toList, hrel'.2, hrel.1.toList, hrel.2]
+  exact ⟨rfl, rfl⟩
+
+/-! ### the code as it was found (`Cfg.original`): the property fails
+
+`notes/C08-findings.md` F1 / F2; the witness histories are replayed on the real code by `tools/props/c08.py`
+(`WITNESSES`).  Stated for every well-formed queue (`R s.q qs`: the links represent the list `qs`, which is all the
+original code reaches before its first postponement or load) and on concrete reachable histories. -/
+
+/-- **Original code: a postponed event is lost.**  `newl 1; post 1 1 5 0; post 1 2 9 0; PostponeEvent(1, type 1, 3)`:
+    event 1 is moved from due time 5 to 8, stays the earliest — and is gone: it was posted, it is neither
+    delivered nor cancelled nor pending (clause 4 of `C08_exactly_once` fails), although no undefined behaviour
+    has happened. -/
+theorem C08_original_postpone_loses_event : ∃ s, ReachableC Cfg.original s ∧ s.h.ub = false ∧
+    ∃ e ∈ s.h.posted, e.id ∉ (delivered s ++ s.h.cancelled ++ pending s).map (·.id) := by
+  obtain ⟨s, hs, hR, hal, hub, hlog, hc, hord⟩ := orig_pre
+  obtain ⟨qa', hp, hl⟩ := original_postpone_root_lost (p := matchType 1 1) (d := ((3 : Nat) : Int)) (ord := s.h.nextOrd)
+    hR (by decide) (by decide)
+  refine ⟨postponeBy (LQ.implC Cfg.original) s (matchType 1 1) 3, ⟨0, origOps ++ [.act (.postpone 1 1 3)], ?_⟩, ?_, ?_⟩
+  · unfold runC at hs ⊢
+    rw [run_append, hs]
+    simp [Machine.run, Machine.step, Act.legalTop, hal, hub, applyAct]
+  · unfold postponeBy
+    have e1 : (LQ.implC Cfg.original).postpone s.q (matchType 1 1) ((3 : Nat) : Int) s.h.nextOrd = _ := hp
+    rw [e1]; exact hub
+  · unfold postponeBy
+    have e1 : (LQ.implC Cfg.original).postpone s.q (matchType 1 1) ((3 : Nat) : Int) s.h.nextOrd = _ := hp
+    rw [e1]
+    refine ⟨_, List.mem_cons_self .., ?_⟩
+    simp only [delivered, pending, hlog, hc, hl]
+    decide
+
+/-- **Original code: postponing past the last node is undefined behaviour.**  In particular postponing the
+    last, or the only, pending event: `newl 1; post 1 1 5 0; post 1 2 9 0; PostponeEvent(1, type 2, 0)`. -/
+theorem C08_original_postpone_ub : ∃ s, ReachableC Cfg.original s ∧ s.h.ub = true := by
+  obtain ⟨s, hs, hR, hal, hub, _⟩ := orig_pre
+  have hp := original_postpone_tail_ub (pre := [⟨1, 1, 1, 5, 0, 1⟩]) (rest := []) (p := matchType 1 2)
+    (d := ((0 : Nat) : Int)) (ord := s.h.nextOrd) hR (by decide) (by decide) (by simp)
+  refine ⟨postponeBy (LQ.implC Cfg.original) s (matchType 1 2) 0, ⟨0, origOps ++ [.act (.postpone 1 2 0)], ?_⟩, ?_⟩
+  · unfold runC at hs ⊢
+    rw [run_append, hs]
+    simp [Machine.run, Machine.step, Act.legalTop, hal, hub, applyAct]
+  · unfold postponeBy
+    have e1 : (LQ.implC Cfg.original).postpone s.q (matchType 1 2) ((0 : Nat) : Int) s.h.nextOrd = none := hp
+    rw [e1]
+
+/-- **Original code, in general.**  From every well-formed queue: postponing the root so that it stays the
+    earliest loses it; postponing an event behind which nothing has a later due time is undefined behaviour. -/
+theorem C08_original_postpone_general {s : State} {p : Ev → Bool} {d : Nat} :
+    (∀ e c u, R s.q (e :: c :: u) → p e = true → e.due + (d : Int) < c.due →
+      pending (postponeBy (LQ.implC Cfg.original) s p d) = c :: u ∧
+      (postponeBy (LQ.implC Cfg.original) s p d).h.ub = s.h.ub) ∧
+    (∀ pre e rest, R s.q (pre ++ e :: rest) → (∀ x ∈ pre, p x = false) → p e = true →
+      (∀ x ∈ rest, x.due ≤ e.due + (d : Int)) → (postponeBy (LQ.implC Cfg.original) s p d).h.ub = true) := by
+  constructor
+  · intro e c u hR hp hlt
+    obtain ⟨qa', h1, h2⟩ := original_postpone_root_lost (ord := s.h.nextOrd) hR hp hlt
+    unfold postponeBy
+    have e1 : (LQ.implC Cfg.original).postpone s.q p (d : Int) s.h.nextOrd = _ := h1
+    rw [e1]; exact ⟨h2, rfl⟩
+  · intro pre e rest hR hpre hp hle
+    have h1 := original_postpone_tail_ub (ord := s.h.nextOrd) hR hpre hp hle
+    unfold postponeBy
+    have e1 : (LQ.implC Cfg.original).postpone s.q p (d : Int) s.h.nextOrd = none := h1
+    rw [e1]
+
+/-- **Original code: loading a non-empty archive** creates nodes whose `event` pointer is indeterminate
+    (`EventQueue::Archive` has no caller inside the engine; it is public API). -/
+theorem C08_original_load_ub : ∃ s, ReachableC Cfg.original s ∧ s.h.ub = true := by
+  obtain ⟨s, hs, hR, _, hub, _⟩ := orig_pre
+  refine ⟨saveLoad (LQ.implC Cfg.original) s, ⟨0, origOps ++ [.saveLoad], ?_⟩, ?_⟩
+  · unfold runC at hs ⊢
+    rw [run_append, hs]
+    simp [Machine.run, Machine.step, hub]
+  · unfold saveLoad
+    have e1 : (LQ.implC Cfg.original).load s.q ((LQ.implC Cfg.original).toList s.q) = none := by
+      show LQ.load false s.q (LQ.toList s.q) = none
+      rw [hR.toList]; exact original_load_ub _ (by simp)
+    rw [e1]
 
 /-! ### non-vacuity: concrete reachable states that meet the hypotheses
 
@@ -287,7 +504,7 @@ example : ∃ s, Reachable s ∧ (step s .process).isSome ∧ (step s (.act (.po
   simp [step, Machine.step, Act.legalTop, h4]
 
 /-- hypothesis of `C08_nondecreasing`: the demo history uses no negative delay -/
-example : ∀ op ∈ demoOps, Op.sat Act.nonneg op := by
+example : ∀ op ∈ demoOps, Op.sat Act.nonneg False op := by
   simp [demoOps, Op.sat, Act.nonneg]
 
 /-- ...and the hypothesis is needed: a response that posts with a negative delay gets its event
@@ -299,5 +516,64 @@ example : ∃ s, Reachable s ∧ (delivered s).map (·.due) = [3, 1, 4] := by
   obtain ⟨ss, hr, h1⟩ := hspec
   obtain ⟨s, hs, _, hh⟩ := reachable_of_spec hr
   exact ⟨s, ⟨1, _, hs⟩, by show ((s.h.log.map (·.ev)).reverse).map (·.due) = _; rw [hh]; exact h1⟩
+
+/-! ### non-vacuity of the theorems about postponements, per-listener passes, clear and archive -/
+
+/-- two listeners; `PostponeAllEvents(2, 1)` moves event 2 from due time 2 onto a tie with event 3 (it goes
+    behind it); the per-listener pass of listener 1 at time 3 delivers event 1, whose response postpones
+    listener 2's type-1 event once more (to 7); listener 2's due event 3 is not delivered by that pass -/
+def demoOps2 : List Op :=
+  [.newl 1, .newl 2, .handler 1 1 [.postpone 2 1 4],
+   .act (.post 1 1 2 0), .act (.post 2 1 2 0), .act (.post 2 2 3 1), .act (.post 1 2 9 0),
+   .act (.postponeAll 2 1), .act (.tick 3), .processL 1]
+
+theorem demo2_reach : ∃ s, Reachable s ∧ (delivered s).map (·.id) = [1] ∧
+    pending s = [⟨3, 2, 2, 3, 1, 3⟩, ⟨2, 2, 1, 7, 0, 6⟩, ⟨4, 1, 2, 9, 0, 4⟩] ∧
+    s.h.postponed.map (fun e => (e.id, e.due)) = [(2, 3), (2, 2)] ∧ s.h.alive = [2, 1] ∧ s.h.now = 3 ∧
+    s.h.log.map (·.glob) = [false] := by
+  have hspec : ∃ ss, Machine.run ListQ.impl (Machine.init ListQ.impl 2) demoOps2 = some ss ∧
+      (ss.h.log.map (·.ev)).reverse.map (·.id) = [1] ∧
+      ss.q = [⟨3, 2, 2, 3, 1, 3⟩, ⟨2, 2, 1, 7, 0, 6⟩, ⟨4, 1, 2, 9, 0, 4⟩] ∧
+      ss.h.postponed.map (fun e => (e.id, e.due)) = [(2, 3), (2, 2)] ∧ ss.h.alive = [2, 1] ∧ ss.h.now = 3 ∧
+      ss.h.log.map (·.glob) = [false] := ⟨_, rfl, by decide⟩
+  obtain ⟨ss, hr, h1, h2, h3, h4, h5, h6⟩ := hspec
+  obtain ⟨s, hs, hp, hh⟩ := reachable_of_spec hr
+  refine ⟨s, ⟨2, demoOps2, hs⟩, ?_, ?_, ?_, ?_, ?_, ?_⟩
+  · show ((s.h.log.map (·.ev)).reverse).map (·.id) = _
+    rw [hh]; exact h1
+  · rw [hp]; exact h2
+  · rw [hh]; exact h3
+  · rw [hh]; exact h4
+  · rw [hh]; exact h5
+  · rw [hh]; exact h6
+
+/-- a reachable state with a superseded version, a per-listener delivery, and a due event of another listener
+    that the per-listener pass left pending -/
+example : ∃ s, Reachable s ∧ s.h.postponed ≠ [] ∧ (∃ d ∈ s.h.log, d.glob = false) ∧
+    ∃ e ∈ pending s, e.due ≤ (s.h.now : Int) := by
+  obtain ⟨s, h, _, h2, h3, _, h5, h6⟩ := demo2_reach
+  refine ⟨s, h, ?_, ?_, ⟨⟨3, 2, 2, 3, 1, 3⟩, by rw [h2]; simp, by rw [h5]; decide⟩⟩
+  · intro e; simp [e] at h3
+  · cases hl : s.h.log with
+    | nil => simp [hl] at h6
+    | cons d t =>
+      rw [hl] at h6
+      exact ⟨d, by simp, by simpa using (List.cons.inj h6).1⟩
+
+/-- hypotheses of the new step theorems: from that state a postponement with a match, one without, a
+    `PostponeAllEvents`, a per-listener pass, `ClearEventList` and an archive round trip are accepted -/
+example : ∃ s, Reachable s ∧ (step s (.act (.postpone 2 1 1))).isSome ∧
+    (pending s).find? (fun e => e.lis == 2 && e.typ == 1) = some ⟨2, 2, 1, 7, 0, 6⟩ ∧
+    (step s (.act (.postpone 1 1 0))).isSome ∧ (pending s).find? (fun e => e.lis == 1 && e.typ == 1) = none ∧
+    (step s (.act (.postponeAll 1 5))).isSome ∧ (step s (.processL 2)).isSome ∧ (step s .clear).isSome ∧
+    (step s .saveLoad).isSome := by
+  obtain ⟨s, h, _, h2, _, h4, _⟩ := demo2_reach
+  refine ⟨s, h, ?_, by rw [h2]; decide, ?_, by rw [h2]; decide, ?_, ?_, ?_, ?_⟩ <;>
+    simp [step, Machine.step, Act.legalTop, h4]
+
+/-- hypotheses of `C08_nondecreasing` / `C08_stamp_is_posting_order`: a history with postponements but no
+    negative delay and no per-listener pass; a history without postponements -/
+example : (∀ op ∈ demoOps2.dropLast, Op.sat Act.nonneg False op) ∧ (∀ op ∈ demoOps, Op.sat Act.noPostpone True op) := by
+  constructor <;> simp [demoOps2, demoOps, Op.sat, Act.nonneg, Act.noPostpone]
 
 end Morfuse.EventQueue
